@@ -170,7 +170,14 @@ func (r *rewriter) rewrite(n ast.Node) string {
 			return "__vs.Go(" + r.node(fl) + ")"
 		}
 		var b strings.Builder
-		b.WriteString("{ __f := " + r.node(c.Fun) + "; ")
+		fn := "__f"
+		if id, ok := c.Fun.(*ast.Ident); ok {
+			// plain identifier (function name or builtin such as panic): call it by name
+			fn = id.Name
+			b.WriteString("{ ")
+		} else {
+			b.WriteString("{ __f := " + r.node(c.Fun) + "; ")
+		}
 		var args []string
 		for i, a := range c.Args {
 			if _, lit := a.(*ast.BasicLit); lit {
@@ -181,7 +188,7 @@ func (r *rewriter) rewrite(n ast.Node) string {
 			b.WriteString(v + " := " + r.node(a) + "; ")
 			args = append(args, v)
 		}
-		call := "__f(" + strings.Join(args, ", ")
+		call := fn + "(" + strings.Join(args, ", ")
 		if c.Ellipsis.IsValid() {
 			call += "..."
 		}
